@@ -1,2 +1,3 @@
 import MudExec.Proto
 import MudExec.OpsA
+import MudExec.OpsB
